@@ -180,25 +180,25 @@ namespace RecInt
     // a = b + c    (r stores the carry)
     template <size_t K, typename T>
     inline __RECINT_IS_ARITH(T, void) add(bool& r, rint<K>& a, const rint<K>& b, const T& c) {
-        add(r, a.Value, b.Value, c);
+        if (c < 0) sub(r, a.Value, b.Value, -c); else add(r, a.Value, b.Value, c);
     }
 
     // a += b    (r stores the carry)
     template <size_t K, typename T>
     inline __RECINT_IS_ARITH(T, void) add(bool& r, rint<K>& a, const T& b) {
-        add(r, a.Value, b);
+        if (b < 0) sub(r, a.Value, -b); else add(r, a.Value, b);
     }
 
     // a = b + c    (the carry is lost)
     template <size_t K, typename T>
     inline __RECINT_IS_ARITH(T, void) add(rint<K>& a, const rint<K>& b, const T& c) {
-        add(a.Value, b.Value, c);
+        if (c < 0) sub(a.Value, b.Value, -c); else add(a.Value, b.Value, c);
     }
 
     // a += b    (the carry is lost)
     template <size_t K, typename T>
     inline __RECINT_IS_ARITH(T, void) add(rint<K>& a, const T& b) {
-        add(a.Value, b);
+        if (b < 0) sub(a.Value, -b); else add(a.Value, b);
     }
 
 
